@@ -14,6 +14,9 @@ CHECKS = {
  "C10": ("differential monitor of LineIndex/to_proto::position/from_proto::position against an independent reference mapper, exhaustive small-scope strings + random texts",
          "Exploration, exhaustive on its small scope: every string of length <=5 (thorough <=6) over a 9-character alphabet (ASCII, space, LF, CR, 2/3/4-byte characters, FF, U+2028) x every char-boundary offset x every (line, column<=width+1), plus random long texts and corpus files in LF and CRLF form. Each conversion is compared with refpos.rs and round-tripped.",
          "refpos.rs (written from the LSP specification) is trusted; positions beyond the last line or splitting a surrogate pair are not demanded", "5/C10"),
+ "C15": ("differential monitor of syntax::parse against a reference conditional evaluator (refpp) over exhaustive directive sequences; ide-level leak monitor on random nestings",
+         "Exploration, exhaustive on its small scope: every sequence of <=6 (thorough <=8) items over 11 directive/marker items; token selection compared with refpp on the well-nested ones, an error demanded on the unterminated and nameless ones; plus random depth<=4 nestings analysed by ide with declarations and undefined references hidden in disabled regions.",
+         "refpp is trusted; a macro name must be on the directive's line (LLVM semantics); error recognition is by message keywords (endif/EOF, macro name)", "5/C15"),
 }
 NOT_YET = "check under construction in this session; not claimed yet"
 
